@@ -9,6 +9,7 @@
 EXTENDS Pipeline
 
 Base == {"a", "b", "m"}
+Avail0 == Base \cup {"single"}   \* "single": m has not been split into a multi-value yet
 C(r, u, k, g) == r @@ [uses |-> u, kills |-> k, gives |-> g]
 
 HeadC(n_) == C([op |-> "head", n |-> n_], {}, {}, {})
@@ -31,24 +32,27 @@ Top(f_, lim_) == C([op |-> "top", f |-> f_, lim |-> lim_], {f_}, (Base \cup {"d"
 Rare(f_, lim_) == C([op |-> "rare", f |-> f_, lim |-> lim_], {f_}, (Base \cup {"d", "n", "sm"}) \ {f_}, {"cnt"})
 Stats(fn_, f_, by_) == C([op |-> "stats", fn |-> fn_, f |-> f_, by |-> by_], ({f_, by_} \ {""}), (Base \cup {"d", "n"}) \ {by_},
                          IF fn_ = "count" THEN {"cnt"} ELSE {"sm"})
-Makemv(f_) == C([op |-> "makemv", f |-> f_], {f_}, {}, {"mv"})
+Makemv(f_) == C([op |-> "makemv", f |-> f_], {f_, "single"}, {"single"}, {"mv"})   \* only on a field that is still single-valued
 Mvexpand(f_) == C([op |-> "mvexpand", f |-> f_], {f_, "mv"}, {"mv"}, {})
 
 RECURSIVE ValidFrom(_, _, _)
 ValidFrom(ch, i, avail) == IF i > Len(ch) THEN TRUE
                            ELSE /\ ch[i].uses \subseteq avail
                                 /\ ValidFrom(ch, i + 1, (avail \ ch[i].kills) \cup ch[i].gives)
-Valid(ch) == ValidFrom(ch, 1, Base)
+(* an aggregation applied to the result of another aggregation (stats ... | top ...) is left out: siglens sums the
+   inner counts there (evaluationstructs.go SortBucketResult), which no documented semantics describes *)
+NoNestedAgg(ch) == Cardinality({i \in DOMAIN ch : ch[i].op \in {"top", "rare", "stats"}}) <= 1
+Valid(ch) == ValidFrom(ch, 1, Avail0) /\ NoNestedAgg(ch)
 
 (* ---- command instances ---- *)
 Streaming == {HeadC(1), HeadC(2), Dedup(<<"a">>, 1, FALSE, FALSE), Dedup(<<"b">>, 1, FALSE, TRUE), Dedup(<<"a">>, 2, FALSE, FALSE),
               Dedup(<<"a">>, 1, TRUE, FALSE), Dedup(<<"a", "b">>, 1, FALSE, FALSE),
               Where("a", 1), Where("b", 1), FieldsKeep({"a"}), FieldsDrop({"b"}), Rename("a", "z"), Fillnull(0, {"b"}),
               EvalAdd("d", "a", "b"), EvalAddK("d", "a", 1), EvalIf("d", "b", 1, "a", "b"), Bin("a", 2), Makemv("m"),
-              SS("count", "", "", 0, FALSE, "n"), SS("sum", "b", "", 0, FALSE, "n"), SS("count", "", "a", 0, FALSE, "n"),
+              SS("count", "", "", 0, FALSE, "n"), SS("sum", "a", "", 0, FALSE, "n"), SS("count", "", "a", 0, FALSE, "n"),
               SS("sum", "a", "a", 0, FALSE, "n")}
-Blocking == {TailC(1), TailC(2), Sort("a", TRUE, 0), Sort("b", FALSE, 0), Sort("a", FALSE, 2), Top("a", 10), Top("a", 1), Rare("a", 10),
-             Stats("count", "", "a"), Stats("sum", "a", "b"), Stats("count", "", ""), Stats("sum", "a", ""),
+Blocking == {TailC(1), TailC(2), Sort("a", TRUE, 0), Sort("b", FALSE, 0), Sort("a", FALSE, 2), Top("a", 0), Rare("a", 0),
+             Stats("count", "", "a"), Stats("sum", "b", "a"), Stats("count", "", ""), Stats("sum", "a", ""),
              Fillnull(0, {}), Bin2("a")}
 (* the two streamstats forms whose cross-batch state the code resets (see SSCarry) *)
 SSWindow == {SS("sum", "a", "", 2, FALSE, "n"), SS("count", "", "", 2, FALSE, "n"), SS("count", "", "a", 2, FALSE, "n")}
@@ -63,7 +67,7 @@ Pairs == {ch \in {<<c1, c2>> : c1 \in CmdsAll, c2 \in CmdsAll \cup Later} : Vali
 PairsNoSS == {ch \in {<<c1, c2>> : c1 \in Cmds, c2 \in Cmds \cup Later} : Valid(ch)}
 (* a hand-picked core for chains of three: one of each protocol class (streaming with state, bottleneck, two-pass, transforming) *)
 Core == {HeadC(2), Dedup(<<"a">>, 1, FALSE, FALSE), Where("b", 1), EvalAdd("d", "a", "b"), SS("count", "", "a", 0, FALSE, "n"),
-         TailC(2), Sort("a", TRUE, 0), Fillnull(0, {}), Bin2("a"), Stats("count", "", "a"), Top("a", 10)}
+         TailC(2), Sort("a", TRUE, 0), Fillnull(0, {}), Bin2("a"), Stats("count", "", "a"), Top("a", 0)}
 Triples == {ch \in {<<c1, c2, c3>> : c1 \in Core, c2 \in Core, c3 \in Core \cup {Where("n", 1), Sort("cnt", FALSE, 0)}} : Valid(ch)}
 
 (* ---- rows: a in 1..3, b in {1, 2, NULL}; m is "1" / "1,2" / "3" ---- *)
@@ -71,6 +75,7 @@ Row(x, y) == [a |-> x, b |-> y, m |-> IF x = 2 THEN 12 ELSE x]
 RowsFull == {Row(x, y) : x \in 1..3, y \in {1, 2, NULL}}
 RowsMid == {Row(1, 1), Row(1, 2), Row(2, 2), Row(2, NULL), Row(3, 1)}
 RowsSmall == {Row(1, 1), Row(2, 2), Row(1, NULL)}
+RowsTiny == {Row(1, 1), Row(2, NULL)}
 BoolBoth == {TRUE, FALSE}
 BoolF == {FALSE}
 =============================================================================
